@@ -54,10 +54,26 @@ class ChildFailure(Exception):
     """The harness (not the system under test) failed: timeout or crashed child."""
 
 
+_CURRENT_CHILD = None
+
+
+def kill_current_child():
+    pid = _CURRENT_CHILD
+    if pid:
+        for kill in (os.kill, os.killpg):
+            try:
+                kill(pid, signal.SIGKILL)
+            except (ProcessLookupError, PermissionError):
+                pass
+
+
 def run_child(root: str, ops: list, seed: int, timeout_s: float = 30.0, opts: dict | None = None) -> dict:
+    global _CURRENT_CHILD
     bootstrap()
     r, w = os.pipe()
     pid = os.fork()
+    if pid:
+        _CURRENT_CHILD = pid
     if pid == 0:
         # ------------------------------------------------------------ child
         code = 0
@@ -114,6 +130,7 @@ def run_child(root: str, ops: list, seed: int, timeout_s: float = 30.0, opts: di
         except ProcessLookupError:
             pass
     _, status = os.waitpid(pid, 0)
+    _CURRENT_CHILD = None
     try:
         os.killpg(pid, signal.SIGKILL)  # descendants the child left behind (a worker pool of the code under test, ...)
     except (ProcessLookupError, PermissionError):
